@@ -55,7 +55,7 @@ pub fn plan(rng: &mut Rng, profile: Profile, small: bool) -> HistPlan {
     // interpreter is there for undefined behaviour in the crate's own paths, so thin the model
     let (ce, cu) = if cfg!(miri) { (12, 3) } else if big { (8, 4) } else { (1, 1) };
     HistPlan {
-        cfg: Cfg { elem, bh: Bh::new(mode, rng.below(4)), cap, check_every: ce, cursor_every: cu, focus: "" },
+        cfg: Cfg { elem, bh: Bh::new(mode, rng.below(4)), cap, check_every: ce, cursor_every: cu, focus: "", ledger_only: false },
         keyspace,
         tail,
         max_len,
@@ -80,6 +80,7 @@ pub fn hist(a: &Args, rep: &mut Report) {
     rep.notes.insert("profile".into(), format!("{profile:?}"));
     let skip = a.u64("skip", 0);
     let progress = a.map.get("progress").cloned();
+    let ledger_only = a.has("ledger-only");
     for h in 0..sh.n {
         let mut hr = rng.fork();
         if h < skip {
@@ -91,6 +92,13 @@ pub fn hist(a: &Args, rep: &mut Report) {
         }
         let mut p = plan(&mut hr, profile, small);
         p.cfg.focus = focus;
+        if ledger_only {
+            // lifetimes need tracked objects
+            if p.cfg.elem == ElemKind::U64 || p.cfg.elem == ElemKind::Big {
+                p.cfg.elem = ElemKind::TrHeap;
+            }
+            p.cfg.ledger_only = true;
+        }
         let mut gen = Gen::new(hr.next(), profile, p.keyspace, p.tail, p.max_len);
         if let Some(f) = &mut transcript_file {
             use std::io::Write as _;
